@@ -401,6 +401,28 @@ func c38StrClass(s string) string {
 	if s == "*" {
 		return "star"
 	}
+	// quoting stress classes come first: they say what a YAML writer has to get right
+	switch {
+	case strings.ContainsAny(s, "\n\t"):
+		c := "tab"
+		if strings.Contains(s, "\n") {
+			c = "newline"
+		}
+		sq, dq := strings.Contains(s, "'"), strings.Contains(s, `"`)
+		switch {
+		case sq && dq:
+			c += "-bothquotes"
+		case dq:
+			c += "-dq"
+		case sq:
+			c += "-sq"
+		}
+		return c
+	case strings.Contains(s, "'") && strings.Contains(s, `"`):
+		return "bothquotes"
+	case s != strings.TrimSpace(s):
+		return "outerblank"
+	}
 	var back []any
 	err := yaml.Unmarshal([]byte("- "+s+"\n"), &back)
 	roundTrips := err == nil && len(back) == 1 && back[0] == any(s)
@@ -428,7 +450,8 @@ func c38StrClass(s string) string {
 }
 
 var c38ClassRank = map[string]int{"plain": 0, "punct": 1, "scalarlike": 2, "needsquote-altered": 3, "needsquote-retyped": 4, "needsquote-null": 5,
-	"needsquote-map": 6, "needsquote-seq": 7, "needsquote-error": 8, "star": 9}
+	"needsquote-map": 6, "needsquote-seq": 7, "needsquote-error": 8, "outerblank": 9, "bothquotes": 10,
+	"tab": 11, "tab-sq": 11, "tab-dq": 11, "tab-bothquotes": 11, "newline": 12, "newline-sq": 12, "newline-dq": 12, "newline-bothquotes": 12, "star": 13}
 
 func c38ValClass(s *c38Setting, v c38Val) string {
 	switch v.K {
@@ -456,7 +479,15 @@ func c38ValClass(s *c38Setting, v c38Val) string {
 		}
 		return "list-" + worst
 	case "map":
-		return "map"
+		worst := "plain"
+		for _, kv := range v.M {
+			for _, e := range kv {
+				if c := c38StrClass(e); c38ClassRank[c] > c38ClassRank[worst] {
+					worst = c
+				}
+			}
+		}
+		return "map-" + worst
 	}
 	return v.K
 }
